@@ -29,6 +29,10 @@ class DomainError(Exception):
     pass
 
 
+class ShapeMismatch(Exception):
+    """operands cannot be broadcast / combined: a runtime shape error of the evaluated program"""
+
+
 # --------------------------------------------------------------------------- basics
 
 def is_sym(x) -> bool:
@@ -898,7 +902,10 @@ def full(shape, v, dtype) -> T:
 
 
 def bcast_shapes(*shapes):
-    return np.broadcast_shapes(*shapes)
+    try:
+        return np.broadcast_shapes(*shapes)
+    except ValueError:
+        raise ShapeMismatch(f"cannot broadcast shapes {shapes}")
 
 
 def map1(fn, x: T, dtype=None) -> T:
